@@ -49,6 +49,9 @@ Props/C07.vos Props/C07.vok Props/C07.required_vos: Props/C07.v Core/Base.vos Co
 Thm/Common/Loops.vo Thm/Common/Loops.glob Thm/Common/Loops.v.beautified Thm/Common/Loops.required_vo: Thm/Common/Loops.v Core/Base.vo Core/Prog.vo Py/Sig.vo Sem/Interp.vo Sem/InterpFacts.vo Sem/StmtFacts.vo Sem/Model.vo Gen/Validators.vo
 Thm/Common/Loops.vio: Thm/Common/Loops.v Core/Base.vio Core/Prog.vio Py/Sig.vio Sem/Interp.vio Sem/InterpFacts.vio Sem/StmtFacts.vio Sem/Model.vio Gen/Validators.vio
 Thm/Common/Loops.vos Thm/Common/Loops.vok Thm/Common/Loops.required_vos: Thm/Common/Loops.v Core/Base.vos Core/Prog.vos Py/Sig.vos Sem/Interp.vos Sem/InterpFacts.vos Sem/StmtFacts.vos Sem/Model.vos Gen/Validators.vos
+Thm/Common/PatchFacts.vo Thm/Common/PatchFacts.glob Thm/Common/PatchFacts.v.beautified Thm/Common/PatchFacts.required_vo: Thm/Common/PatchFacts.v Core/Base.vo Core/Prog.vo Py/Sig.vo Sem/Interp.vo Sem/InterpFacts.vo Sem/StmtFacts.vo Sem/Model.vo Gen/HasPatcher.vo
+Thm/Common/PatchFacts.vio: Thm/Common/PatchFacts.v Core/Base.vio Core/Prog.vio Py/Sig.vio Sem/Interp.vio Sem/InterpFacts.vio Sem/StmtFacts.vio Sem/Model.vio Gen/HasPatcher.vio
+Thm/Common/PatchFacts.vos Thm/Common/PatchFacts.vok Thm/Common/PatchFacts.required_vos: Thm/Common/PatchFacts.v Core/Base.vos Core/Prog.vos Py/Sig.vos Sem/Interp.vos Sem/InterpFacts.vos Sem/StmtFacts.vos Sem/Model.vos Gen/HasPatcher.vos
 Thm/C01/Gate.vo Thm/C01/Gate.glob Thm/C01/Gate.v.beautified Thm/C01/Gate.required_vo: Thm/C01/Gate.v Core/Base.vo Core/Prog.vo Py/Sig.vo Sem/Interp.vo Sem/InterpFacts.vo Sem/StmtFacts.vo Sem/Model.vo Gen/Validators.vo Gen/HasPatcher.vo Gen/Contracts.vo Thm/Common/Loops.vo
 Thm/C01/Gate.vio: Thm/C01/Gate.v Core/Base.vio Core/Prog.vio Py/Sig.vio Sem/Interp.vio Sem/InterpFacts.vio Sem/StmtFacts.vio Sem/Model.vio Gen/Validators.vio Gen/HasPatcher.vio Gen/Contracts.vio Thm/Common/Loops.vio
 Thm/C01/Gate.vos Thm/C01/Gate.vok Thm/C01/Gate.required_vos: Thm/C01/Gate.v Core/Base.vos Core/Prog.vos Py/Sig.vos Sem/Interp.vos Sem/InterpFacts.vos Sem/StmtFacts.vos Sem/Model.vos Gen/Validators.vos Gen/HasPatcher.vos Gen/Contracts.vos Thm/Common/Loops.vos
@@ -61,3 +64,9 @@ Thm/C02/Post.vos Thm/C02/Post.vok Thm/C02/Post.required_vos: Thm/C02/Post.v Core
 Props/C02.vo Props/C02.glob Props/C02.v.beautified Props/C02.required_vo: Props/C02.v Core/Base.vo Core/Prog.vo Py/Sig.vo Sem/Interp.vo Sem/InterpFacts.vo Sem/Model.vo Gen/Validators.vo Gen/HasPatcher.vo Gen/Contracts.vo Sem/Scenario.vo Thm/Common/Loops.vo Thm/C02/Post.vo
 Props/C02.vio: Props/C02.v Core/Base.vio Core/Prog.vio Py/Sig.vio Sem/Interp.vio Sem/InterpFacts.vio Sem/Model.vio Gen/Validators.vio Gen/HasPatcher.vio Gen/Contracts.vio Sem/Scenario.vio Thm/Common/Loops.vio Thm/C02/Post.vio
 Props/C02.vos Props/C02.vok Props/C02.required_vos: Props/C02.v Core/Base.vos Core/Prog.vos Py/Sig.vos Sem/Interp.vos Sem/InterpFacts.vos Sem/Model.vos Gen/Validators.vos Gen/HasPatcher.vos Gen/Contracts.vos Sem/Scenario.vos Thm/Common/Loops.vos Thm/C02/Post.vos
+Thm/C03/Except.vo Thm/C03/Except.glob Thm/C03/Except.v.beautified Thm/C03/Except.required_vo: Thm/C03/Except.v Core/Base.vo Core/Prog.vo Py/Sig.vo Sem/Interp.vo Sem/InterpFacts.vo Sem/StmtFacts.vo Sem/Model.vo Gen/Validators.vo Gen/HasPatcher.vo Gen/Contracts.vo Thm/Common/Loops.vo Thm/Common/PatchFacts.vo
+Thm/C03/Except.vio: Thm/C03/Except.v Core/Base.vio Core/Prog.vio Py/Sig.vio Sem/Interp.vio Sem/InterpFacts.vio Sem/StmtFacts.vio Sem/Model.vio Gen/Validators.vio Gen/HasPatcher.vio Gen/Contracts.vio Thm/Common/Loops.vio Thm/Common/PatchFacts.vio
+Thm/C03/Except.vos Thm/C03/Except.vok Thm/C03/Except.required_vos: Thm/C03/Except.v Core/Base.vos Core/Prog.vos Py/Sig.vos Sem/Interp.vos Sem/InterpFacts.vos Sem/StmtFacts.vos Sem/Model.vos Gen/Validators.vos Gen/HasPatcher.vos Gen/Contracts.vos Thm/Common/Loops.vos Thm/Common/PatchFacts.vos
+Props/C03.vo Props/C03.glob Props/C03.v.beautified Props/C03.required_vo: Props/C03.v Core/Base.vo Core/Prog.vo Py/Sig.vo Sem/Interp.vo Sem/InterpFacts.vo Sem/Model.vo Gen/Validators.vo Gen/HasPatcher.vo Gen/Contracts.vo Sem/Scenario.vo Thm/Common/Loops.vo Thm/Common/PatchFacts.vo Thm/C03/Except.vo
+Props/C03.vio: Props/C03.v Core/Base.vio Core/Prog.vio Py/Sig.vio Sem/Interp.vio Sem/InterpFacts.vio Sem/Model.vio Gen/Validators.vio Gen/HasPatcher.vio Gen/Contracts.vio Sem/Scenario.vio Thm/Common/Loops.vio Thm/Common/PatchFacts.vio Thm/C03/Except.vio
+Props/C03.vos Props/C03.vok Props/C03.required_vos: Props/C03.v Core/Base.vos Core/Prog.vos Py/Sig.vos Sem/Interp.vos Sem/InterpFacts.vos Sem/Model.vos Gen/Validators.vos Gen/HasPatcher.vos Gen/Contracts.vos Sem/Scenario.vos Thm/Common/Loops.vos Thm/Common/PatchFacts.vos Thm/C03/Except.vos
